@@ -338,6 +338,14 @@ def run_case(doc, fmt, name, preexisting, fault, scratch, cross_fs=False):
                     def __getattr__(self, n):
                         return getattr(f, n)
 
+                    # "with os.fdopen(...) as stream:" looks these up on the type, not through __getattr__
+                    def __enter__(self):
+                        return self
+
+                    def __exit__(self, *exc):
+                        self.close()
+                        return False
+
                     def write(self, data):
                         if writes[0] == fault[1]:
                             writes[0] += 1
@@ -357,6 +365,14 @@ def run_case(doc, fmt, name, preexisting, fault, scratch, cross_fs=False):
                     def __getattr__(self, n):
                         return getattr(f, n)
 
+                    # "with os.fdopen(...) as stream:" looks these up on the type, not through __getattr__
+                    def __enter__(self):
+                        return self
+
+                    def __exit__(self, *exc):
+                        self.close()
+                        return False
+
                     def write(self, data):
                         writes[0] += 1
                         return orig(data)
@@ -373,6 +389,14 @@ def run_case(doc, fmt, name, preexisting, fault, scratch, cross_fs=False):
                 class W:
                     def __getattr__(self, n):
                         return getattr(f, n)
+
+                    # "with os.fdopen(...) as stream:" looks these up on the type, not through __getattr__
+                    def __enter__(self):
+                        return self
+
+                    def __exit__(self, *exc):
+                        self.close()
+                        return False
 
                     def write(self, data):
                         writes[0] += 1
